@@ -27,6 +27,7 @@ struct Inst {
   int b = 0, e = 1;
   std::vector<Cell> cells;
   std::vector<std::vector<Query>> queries;  // before each push
+  std::vector<Cell> reused;  // pushed and then clear()ed before the judged sequence (object reuse)
   std::string json() const {
     std::ostringstream s;
     s << "{\"begin\":" << b << ",\"end\":" << e << ",\"pushes\":[";
@@ -149,6 +150,14 @@ bool judge(const Inst &in, Report &R, bool useDP, bool &displaced,
            bool &rightEndActive) {
   RowLegalizer leg(in.b, in.e);   // receives queries
   RowLegalizer twin(in.b, in.e);  // never queried
+  if (!in.reused.empty()) {
+    // a reused object: after clear() it must behave like a new one
+    for (const Cell &c : in.reused)
+      if (leg.remainingSpace() >= c.w) leg.push(c.w, c.t);
+    leg.clear();
+    if (leg.usedSpace() != 0 || leg.remainingSpace() != in.e - in.b || !leg.getPlacement().empty())
+      return R.fail("clear() did not empty the row");
+  }
   i128 sumCosts = 0;
   displaced = false;
   rightEndActive = false;
@@ -311,6 +320,17 @@ Inst decode(Tape &t, int &mode) {
 bool prop(Tape &t, Report &R) {
   int mode;
   Inst in = decode(t, mode);
+  // decided last: the queried object is a reused one (some pushes, then clear())
+  if (t.flip(1, 4)) {
+    int k = t.choose(1, 4);
+    for (int i = 0; i < k; ++i) {
+      Cell c;
+      c.w = (int)t.range(1, std::max(1, (in.e - in.b) / 2));
+      c.t = (int)t.range((long long)in.b - (in.e - in.b), (long long)in.e + (in.e - in.b));
+      in.reused.push_back(c);
+    }
+    R.classify("object:reused-after-clear");
+  }
   static const char *mname[] = {"scale:small", "scale:medium", "scale:2^22"};
   R.classify(mname[mode]);
   R.classify("cells:" + std::to_string(std::min<size_t>(in.cells.size(), 8) ) + (in.cells.size() >= 8 ? "+" : ""));
